@@ -1,5 +1,5 @@
 (* Shape cloning: NifFile::CloneChildren (src/NifFile.cpp:1262-1307), CloneShape (1309-1427),
-   CloneNamedNode (1429-1445), with the lookups they use (GetRootNode 2321-2335, GetParentNode
+   CloneNamedNode (1429-1454), with the lookups they use (GetRootNode 2321-2335, GetParentNode
    28-44, FindBlockByName<NiNode> NifFile.hpp:225-233, GetShapeBoneList 2416-2433,
    NiHeader::AddOrFindStringId BasicTypes.cpp:459-476).
 
@@ -193,13 +193,16 @@ Definition clone_named_node (st : cst) (name : N) : cst * N :=
     match anode sa with
     | None => (st, NPOS)
     | Some (_, _, cleared, cstart) =>
-      (* Clone(); name = nodeName; collisionRef, controllerRef, childRefs, effectRefs cleared *)
+      (* Clone(); name = nodeName; collisionRef, controllerRef, childRefs, effectRefs cleared;
+         if (srcNif != this) every remaining child reference and pointer is emptied (they are block
+         indices of the other file) *)
+      let kept := map (fun o => match o with
+                                | Some p => match vget (crefs sb) p with Some r => r | None => NPOS end
+                                | None => NPOS
+                                end) cleared in
       add_object st (tname sb)
-        (map (fun o => match o with
-                       | Some p => match vget (crefs sb) p with Some r => r | None => NPOS end
-                       | None => NPOS
-                       end) cleared)
-        (ptrs sb)
+        (match src with Some _ => map (fun _ => NPOS) kept | None => kept end)
+        (match src with Some _ => map (fun _ => NPOS) (ptrs sb) | None => ptrs sb end)
         (mkAux (astrs sa) (atok sa) None None (anamepos sa)
                (Some (cstart, 0, renumber 0 cleared, cstart)) None (abones sa))
     end
